@@ -64,6 +64,7 @@ inductive Fn (V K : Type)
   | breg (f : Fn V K) (p q : V)                 -- BregmanDistance(f, point=p, subgrad=q)
   | infconv (f g : Fn V K)                      -- InfimalConvolution (no `_call`)
   | menv (f : Fn V K) (P : V → V) (σ : K)       -- MoreauEnvelope(f, σ); P = f.proximal(σ) (no `_call`)
+  | dconj (f : Fn V K)                          -- FunctionalDefaultConvexConjugate(f) (no `_call`)
 
 section
 variable {V K : Type} [Add K] [Mul K] [Sub K] [Neg K] [Div K] [OfNat K 0] [OfNat K 1]
@@ -96,6 +97,7 @@ variable (o : VecOps V K)
 def Fn.evaluable : Fn V K → Bool
   | .infconv _ _ => false
   | .menv _ _ _ => false
+  | .dconj _ => false
   | .lscal _ f | .rscal f _ | .rvec f _ _ | .ssum f _ | .trans f _ | .qp f _ _ _ _
   | .comp f _ _ | .breg f _ _ => f.evaluable
   | .sum f g | .prod f g | .quot f g => f.evaluable && g.evaluable
@@ -124,6 +126,7 @@ def Fn.value : Fn V K → V → K
       f.value x + 0 * o.inner x x + o.inner x (o.smul (-1) q) + (-(f.value p) + o.inner q p)
   | .infconv _ _, _ => 0
   | .menv _ _ _, _ => 0
+  | .dconj _, _ => 0
 
 /-- `f(x) < +∞` (indicator constraints satisfied). -/
 def Fn.dom : Fn V K → V → Bool
@@ -147,6 +150,7 @@ def Fn.hasGrad : Fn V K → Bool
   | .coord .indLinf => false
   | .indZero _ => false
   | .infconv _ _ => false
+  | .dconj _ => false
   | .menv _ _ _ => true
   | .lscal _ f | .rscal f _ | .rvec f _ _ | .ssum f _ | .trans f _ | .qp f _ _ _ _
   | .comp f _ _ | .breg f _ _ => f.hasGrad
@@ -177,6 +181,7 @@ def Fn.grad : Fn V K → V → V
   | .breg f _ q, x => o.sub (f.grad x) q
   | .infconv _ _, _ => o.zero
   | .menv _ P σ, x => o.sub (o.smul (1 / σ) x) (o.smul (1 / σ) (P x))
+  | .dconj _, _ => o.zero
 
 /-- `f.derivative(x)(d) = f.gradient(x).T(d) = d.inner(f.gradient(x))`. -/
 def Fn.deriv (f : Fn V K) (x d : V) : K := o.inner d (f.grad o x)
@@ -205,6 +210,7 @@ def Fn.lip : Fn V K → Lip K
   | .breg f _ q => Lip.add f.lip (Lip.norm (o.inner q q))
   | .infconv .. => Lip.nan
   | .menv .. => Lip.nan
+  | .dconj .. => Lip.nan
 
 /-- `is_linear` flag as the constructors compute it (decides `__mul__`'s branch). -/
 def Fn.isLinear : Fn V K → Bool
@@ -221,8 +227,9 @@ def Fn.isLinear : Fn V K → Bool
 def Fn.mulScalar (f : Fn V K) (s : K) : Fn V K :=
   if f.isLinear then .lscal s f else .rscal f s
 
-/-- `f.convex_conj` as the classes build it; `none` = no evaluable conjugate
-(`FunctionalDefaultConvexConjugate`, `ValueError`, `NotImplementedError`). -/
+/-- `f.convex_conj` as the classes build it; `none` = the property raises (`ValueError` for a
+non-positive left scalar); classes without an explicit rule get the default wrapper `dconj`
+(`FunctionalDefaultConvexConjugate`, not evaluable, whose own conjugate is the original). -/
 def Fn.conj : Fn V K → Option (Fn V K)
   | .coord .l1 => some (.coord .indLinf)
   | .coord .indLinf => some (.coord .l1)
@@ -244,21 +251,21 @@ def Fn.conj : Fn V K → Option (Fn V K)
   | .rscal f s => match f.conj with
       | none => none
       | some g => some (Fn.mulScalar g (1 / s))
-  | .rvec f _ vinv => match f.conj with
+  | .rvec f v vinv => match f.conj with
       | none => none
-      | some g => some (.rvec g vinv vinv)
+      | some g => some (.rvec g vinv v)
   | .ssum f c => match f.conj with
       | none => none
       | some g => some (.ssum g (-c))
   | .trans f t => match f.conj with
       | none => none
       | some g => some (.qp g 0 true t 0)
-  | .qp f a _ u c =>
+  | .qp f a hasU u c =>
       if a = 0 then
         match f.conj with
         | none => none
         | some g => if c = 0 then some (.trans g u) else some (.ssum (.trans g u) (-c))
-      else none
+      else some (.dconj (.qp f a hasU u c))
   | .breg f p q =>
       match f.conj with
       | none => none
@@ -269,7 +276,8 @@ def Fn.conj : Fn V K → Option (Fn V K)
   | .infconv f g => match f.conj, g.conj with
       | some f', some g' => some (.sum f' g')
       | _, _ => none
-  | _ => none
+  | .dconj f => some f
+  | f => some (.dconj f)
 
 end
 
